@@ -52,7 +52,9 @@ theorem consumeFormatOptions_not_newline (p : Pos) (cs : List Ch) : (consumeForm
   | none => simp
   | some rest =>
     simp only
-    cases hf : findRBrace rest <;> simp
+    cases hf : findRBrace rest with
+    | none => simp
+    | some e => simp only; cases hp : prefixAt (e + formatSkip cs) cs <;> simp
 
 theorem consumeIdOrKeyword_not_newline (p : Pos) (prevTok : Option Token) (cs : List Ch) :
     ∀ t m, consumeIdOrKeyword p prevTok cs = .tok t m → t ≠ .newLine := by
